@@ -9,6 +9,9 @@ from .iter_rules import *
 
 def run(chk, ctx):
     P = Prog(ctx["facts"])
+    # "variables shadow outputs" holds only while the real variable map is the active one: the exchange made for
+    # virtual-signal evaluation must be undone on every path (shared with C14 / C18)
+    swap_pair_rule(chk, P)
     from . import eqrules
     eqrules.require(chk, P, ["Signal"], "`output.signal == signal` identifies the signal (name, width and direction all equal)")
     eqrules.require_clone(chk, P, ["value::OutputValue"], "EvalContext::get hands out the stored output value")
